@@ -54,6 +54,9 @@ def inputs(rng, sc, tier):
         h = HG.wellformed_header(rng)
         muts = HG.mutations(h, rng, full=False, positions=rng.sample(range(min(len(h), 100)), min(4, len(h))))
         put("hdrgen", rng.choice(muts) + h)
+    # level-0 extended areas of every length (each fixed offset an area decoder looks at is a boundary)
+    for h in HG.level0_area_lengths():
+        put("l0area", h)
     # unstructured bytes behind a valid first signature
     for i in range(300 if tier == "quick" else 6000):
         sig = rng.choice([b"-lh5-", b"-lh0-", b"-lhd-", b"-lz5-", b"-pm2-", b"-lh1-", b"-lzs-", b"-pm1-", b"-lh7-"])
